@@ -34,6 +34,7 @@
 (* CaseDigests = << <<name, digestBefore, digestAfter>>, ... >>: digests   *)
 (* of the instruction streams the real compiler emitted for a program      *)
 (* before and after a re-layout of its source.                             *)
+(* CaseLogActions: print one line per step taken (small runs only).        *)
 (*                                                                         *)
 (* The sample: 1  x += 0x1F // c <LF> !go("h\u{e9}")                       *)
 (*             2  '\n' @if          (lexical error after the character)    *)
@@ -73,6 +74,7 @@ CaseVals == <<
 CaseDigests == <<
 
 >>
+CaseLogActions == FALSE
 \* END DATA
 
 NCases == Len(CasePacked)
